@@ -1,7 +1,7 @@
 SPECIFICATION Spec
 CONSTANTS
   Leads <- MC_Leads
-  Bodies <- MC_Bodies
+  Bodies <- MC_BodiesAll
   SignForms <- MC_SignsAll
   JoinElems <- MC_JoinElems
   MaxTerms = 2
